@@ -93,6 +93,56 @@ def enclosing_if(path):
     return ifs[-1] if ifs else None
 
 
+_FLOAT_T = {"float", "double", "long double"}
+
+
+def cast_chain(n):
+    """the arithmetic types a value passes through between an integral leaf and the expression n: [type of the leaf, ..., type of n]; None when n is not a pure
+    chain of conversions"""
+    chain = []
+    while isinstance(n, dict):
+        k = n.get("k")
+        if k == "Paren" or (k in ("ImplicitCast", "ExplicitCast") and n.get("cast") in ("NoOp", "LValueToRValue", "ConstructorConversion", "UserDefinedConversion")):
+            n = n.get("e")
+        elif k in ("ImplicitCast", "ExplicitCast") and n.get("cast") in ("IntegralCast", "IntegralToFloating", "FloatingToIntegral", "FloatingCast"):
+            chain.append((R._cty(n.get("from_c")), R._cty(n.get("to_c"))))
+            n = n.get("e")
+        else:
+            break
+    if not chain:
+        return None
+    chain.reverse()
+    if any(chain[i][1] != chain[i + 1][0] for i in range(len(chain) - 1)) or chain[0][0] not in R._TYRANGE:
+        return None
+    return [chain[0][0]] + [b for _, b in chain]
+
+
+def _conv(v, t):
+    if t in _FLOAT_T:
+        return float(v)
+    lo, hi = R._TYRANGE[t]
+    if isinstance(v, float):
+        v = int(v)
+    return (v - lo) % (hi - lo + 1) + lo
+
+
+def chain_witness(ch):
+    """a value of the first type that the chain of conversions changes (compared with the direct conversion to the last type), or None"""
+    if any(t not in R._TYRANGE and t not in _FLOAT_T for t in ch):
+        return None
+    lo, hi = R._TYRANGE[ch[0]]
+    for v in (lo, -1, hi):
+        if not lo <= v <= hi:
+            continue
+        w = v
+        for t in ch[1:]:
+            w = _conv(w, t)
+        d = _conv(v, ch[-1])
+        if w != d:
+            return (v, w, d)
+    return None
+
+
 def std_filler(g, f, rep, where, calls_of):
     """H6: the three std-container overloads of fill_histogram (canonical form: $0 view, $1 container, $2 accumulate)"""
     cont = re.match(r"std::(\w+)<", f["params"][1]["type"]).group(1)
@@ -100,10 +150,12 @@ def std_filler(g, f, rep, where, calls_of):
     prob, unknown = [], []
     body = R.strip(g["body"])
     items = [R.strip(x) for x in body.get("c", [])]
-    ifs = [x for x in items if x.get("k") == "If"]
+    all_ifs = [x for x in items if x.get("k") == "If"]
+    grow_ifs = [x for x in all_ifs if "$1.size()" in R.key(x["cond"]) and "$2" not in R.key(x["cond"])] if cont == "vector" else []
+    ifs = [x for x in all_ifs if not any(x is y for y in grow_ifs)]
     nested = [x for x, _ in R.find(g["body"], lambda x: x.get("k") in ("If", "Cond", "Switch", "For", "While", "Do", "ForRange"))]
-    if len(ifs) != 1 or len(nested) != 1:
-        unknown.append("expected exactly one conditional (the reset), found %d top-level / %d in all" % (len(ifs), len(nested)))
+    if len(ifs) != 1 or len(nested) != 1 + len(grow_ifs) or len(grow_ifs) > 1:
+        unknown.append("expected exactly one conditional (the reset)%s, found %d top-level / %d in all" % (" and at most one that grows the vector" if cont == "vector" else "", len(all_ifs), len(nested)))
     else:
         ok, at = same_function(ifs[0]["cond"], "not acc", lambda a: {"$2": "acc"}.get(a, a))
         if not ok or ifs[0].get("else") is not None:
@@ -131,16 +183,30 @@ def std_filler(g, f, rep, where, calls_of):
         lam = lam[0] if lam else None
     lims = {c["callee"]["cls"] for c, _ in R.calls_in(g["body"], lambda n: n == "std::numeric_limits::max")}
     if cont == "vector":
+        # the vector has max+1 bins before the loop, and no bin that exists is dropped on the accumulate path: `resize(max+1)` alone shrinks a longer vector
+        NB = ("(max() + 1)", "(1 + max())")
         rs = [x for x in top_calls if x["callee"]["name"] == "std::vector::resize"]
-        if len(rs) != 1 or R.key(rs[0]) not in ("$1.resize((max() + 1))", "$1.resize((1 + max()))"):
-            prob.append("sizing statement %s, expected $1.resize(max()+1)" % [R.key(x) for x in rs])
-        elif loops and items.index(rs[0]) > items.index(loops[0]):
-            prob.append("the vector is sized after the pixel loop")
+        grs = [c for gi in grow_ifs for c, _ in R.calls_in(gi.get("then"), lambda n: n == "std::vector::resize")]
+        if len(rs) == 1 and not grs and R.key(rs[0]) in ["$1.resize(%s)" % b for b in NB]:
+            if loops and items.index(rs[0]) > items.index(loops[0]):
+                prob.append("the vector is sized after the pixel loop")
+            else:
+                prob.append("`histogram.resize(max+1)` is executed on the accumulate path as well and shrinks a vector that is longer: fill_histogram(gray16 view, v); "
+                            "fill_histogram(gray8 view, v, true) drops the bins 256..65535 of the first image (the counts no longer add up)")
+        elif len(grs) == 1 and not rs and len(grow_ifs) == 1 and grow_ifs[0].get("else") is None:
+            gk, ck = R.key(grs[0]), R.key(grow_ifs[0]["cond"])
+            mb = re.fullmatch(r"\$1\.resize\((.+)\)", gk)
+            if not mb or mb.group(1) not in NB or ck not in ("($1.size() < %s)" % mb.group(1), "(%s > $1.size())" % mb.group(1)):
+                prob.append("sizing statement `if %s %s`, expected `if (size() < max+1) resize(max+1)`" % (ck, gk))
+            elif loops and items.index(grow_ifs[0]) > items.index(loops[0]):
+                prob.append("the vector is sized after the pixel loop")
+        else:
+            prob.append("sizing statement %s, expected the vector to be grown to max()+1 bins before the loop" % [R.key(x) for x in rs + grs])
         if loops and lims != {"std::numeric_limits<%s>" % chan}:
             prob.append("the vector is sized from %s but indexed by %s" % (sorted(lims), chan))
     if lam is not None:
         eff = effects(lam["body"])
-        conv = r"&0\.operator [\w ]+\(\)"
+        conv = r"(?:&0\.operator [\w ]+\(\)|get_color\(&0,gray_color_t\{\}\)|at_c\(&0\)|semantic_at_c\(&0\)|&0\[0\])"
         if cont == "array":
             # the scale is either written in place or a local that is assigned once (the size of a std::array never changes)
             SC = r"\(\(\$1\.size\(\) - 1\) / max\(\)\)"
@@ -159,6 +225,18 @@ def std_filler(g, f, rep, where, calls_of):
             prob.append("bin updates %s, expected a single ++bin[%s]" % (ks, "gray * (size-1)/max" if cont == "array" else "gray"))
         if [x for x, _ in R.find(lam["body"], lambda x: x.get("k") in ("If", "Cond", "Switch", "For", "While", "Do", "Return", "Continue"))]:
             prob.append("the increment is conditional")
+        # H6b: the conversions between the gray channel and the container's key keep the value of every channel (a signed channel that goes through an
+        # unsigned type and then into a wider or floating key does not come back)
+        for c, _ in R.find(lam["body"], lambda x: x.get("k") == "Call" and x.get("op") == "[]"):
+            idx = (c.get("args") or [None, None])[-1] if c.get("args") else None
+            kids = [v for kk, v in c.items() if isinstance(v, dict) and kk not in ("callee",)] + [x for kk, v in c.items() if isinstance(v, list) for x in v if isinstance(x, dict)]
+            for idx in kids:
+                ch = cast_chain(idx)
+                if ch is None or len(ch) < 3:
+                    continue
+                bad = chain_witness(ch)
+                if bad:
+                    prob.append("the bin index of a %s channel is converted %s: the value %d arrives as %s, converted directly it is %s" % (ch[0], " -> ".join(ch), bad[0], bad[1], bad[2]))
     if prob:
         rep.violation("H6-std-fill", key, where, {"problems": prob + unknown})
     elif unknown:
@@ -213,7 +291,7 @@ def run(rep):
     wd = C.workdir("C19")
     d = C.astdump(os.path.join(C.DRIVERS, "c19_driver.cpp"), os.path.join(wd, "h.json"),
                   ['^boost::gil::histogram::(fill|normalize|sum|sub_histogram|key_from_pixel)$', '^boost::gil::(fill_histogram|cumulative_histogram)$',
-                   '^boost::gil::detail::(tuple_compare|filler::operator\\(\\))$'])
+                   '^boost::gil::detail::(tuple_compare|tuple_component_max|pixel_to_tuple|filler::operator\\(\\))$'])
     if d.get("errors"):
         raise C.AnalysisBroken("drivers/c19_driver.cpp has compile errors")
     fns = d["functions"]
@@ -256,6 +334,15 @@ def run(rep):
         else:
             rep.ok("H10-truncating-accumulator", k10, "%d compound assignments, none truncates" % nca)
     rep.floor("obligations:H10", 3)
+    helper_max = {}
+    for f in fns:
+        if f["name"] == "boost::gil::detail::tuple_component_max" and f.get("body") is not None:
+            ks = [k for k, _, _ in effects(R.canonize(f)["body"])]
+            A, B = "get($0)", "get($1)"
+            forms = {"(%s = ((%s < %s) ? %s : %s))" % (A, A, B, B, A), "(%s = ((%s > %s) ? %s : %s))" % (A, B, A, B, A), "(%s = ((%s > %s) ? %s : %s))" % (A, A, B, A, B),
+                     "(%s = ((%s < %s) ? %s : %s))" % (A, B, A, A, B), "(%s = max(%s,%s))" % (A, A, B), "(%s = max(%s,%s))" % (A, B, A)}
+            okh = bool(ks) and all(k in forms for k in ks)
+            helper_max = {"ok": okh and helper_max.get("ok", True), "eff": ks}
     for f in fns:
         nm = f["name"]
         short = nm.split("::")[-1]
@@ -409,6 +496,41 @@ def run(rep):
                     rep.violation("H9-scaled-copy", k9, where, {"type of the scaled pixel": ty[0][:120], "problem": "the division by bin_width is written through the reference into the source image"})
                 else:
                     rep.ok("H9-scaled-copy", k9, ty[0][:80] if ty else None)
+        # ---------------------------------------------------------------- H11: the axes of the key are colours
+        if nm == "boost::gil::detail::pixel_to_tuple" and len(f["params"]) == 2:
+            mp = R.layout_mapping(f["params"][0]["type"]) or R.layout_mapping(f["full"])
+            msel = re.search(r"(?:index_sequence<|integer_sequence<unsigned long, )((?:\d+(?:UL)?(?:, )?)*)>", f["params"][1]["type"])
+            sel = [int(x) for x in re.findall(r"\d+", msel.group(1))] if msel else []
+            if mp is not None and sel and mp != list(range(len(mp))):
+                rep.count("obligations:H11")
+                k11 = "H11:pixel_to_tuple:axes <%s> of a pixel stored as %s" % (",".join(map(str, sel)), mp)
+                mk = [c for c, _ in R.calls_in(f["body"], lambda n: n == "std::make_tuple")]
+                got, unk = [], []
+                for a in (mk[0].get("args") or []) if len(mk) == 1 else []:
+                    n = R.strip(a)
+                    cal = n.get("callee", {}) if n.get("k") == "Call" else {}
+                    cn = cal.get("name", "")
+                    ms = re.match(r"boost::gil::semantic_at_c<(\d+)", cal.get("full", ""))
+                    ma = re.match(r"boost::gil::at_c<(\d+)", cal.get("full", ""))
+                    if ms:
+                        got.append(int(ms.group(1)))
+                    elif ma or cn.endswith("::operator[]") or cn.endswith("dynamic_at_c"):
+                        # position in memory -> the colour stored there
+                        pos = int(ma.group(1)) if ma else R.type_range((n.get("args") or [None])[-1])
+                        pos = pos[0] if isinstance(pos, tuple) and pos[0] == pos[1] else pos
+                        if isinstance(pos, int) and pos in mp:
+                            got.append(mp.index(pos))
+                        else:
+                            unk.append(R.key(n))
+                    else:
+                        unk.append(R.key(n))
+                if len(mk) != 1 or unk or len(got) != len(sel):
+                    rep.incon("H11-axes-by-colour", k11, {"unrecognised": unk or "no single make_tuple of the selected channels"})
+                elif got != sel:
+                    rep.violation("H11-axes-by-colour", k11, where, {"selected axes (colour space order: 0 - red, 1 - green, 2 - blue, doc/histogram/fill.rst)": sel, "colours the key is built from": got,
+                                                                     "example": "the same picture stored as rgb8 and as bgr8 gives different histograms: fill_histogram<0> counts red for one, blue for the other"})
+                else:
+                    rep.ok("H11-axes-by-colour", k11, got)
         # ---------------------------------------------------------------- H1b
         if nm == "boost::gil::detail::tuple_compare" and len(f["params"]) == 3:
             rep.count("obligations:H1b")
@@ -517,6 +639,22 @@ def run(rep):
                         guard_ok = bool(ifn) and R.key(ifn[-1]["cond"]).startswith(cmp_pat) and ifn[-1].get("else") is None
             ret = [R.key(x.get("e")) for x, _ in R.find(g["body"], lambda x: x.get("k") == "Return")]
             ret_ok = env1 is not None and ret == [env1["H"]]
+            # H3c: "its last bin equals the total" for two or more axes: the histogram is sparse, the bin of the greatest key of every axis exists only if a pixel fell
+            # there -- it has to be created with the total (key: fold of a component-wise maximum over all keys; value: sum over all bins)
+            if envn is not None and env1 is not None:
+                rep.count("obligations:H3c")
+                k3c = "H3c:cumulative_histogram:last bin of an n-D histogram"
+                envc = bind(keys, ["({T} += {u}.second)", "({H}[{K}] = {T})"], {"H": env1["H"]})
+                folds = [R.key(c) for c, _ in R.calls_in(g["body"], lambda n: n.endswith("tuple_component_max"))]
+                if envc is None:
+                    rep.violation("H3c-last-bin", k3c, where, {"problem": "no bin is created for the component-wise greatest key: the sums are stored under keys of the source only",
+                                                               "example": "bins (2,1)=1 (2,4)=1 (5,3)=1: cumulative (2,1)=1 (2,4)=2 (5,3)=2, no bin holds the total 3 (the last bin (5,4) does not exist)"})
+                elif not any(fk.startswith(fill_in("tuple_component_max({K},{u}.first,", envc)) for fk in folds):
+                    rep.incon("H3c-last-bin", k3c, {"unrecognised": "the key %s of the total is not a component-wise maximum over all keys: %s" % (envc["K"], folds)})
+                elif helper_max.get("ok") is not True:
+                    rep.violation("H3c-last-bin", k3c, where, {"problem": "detail::tuple_component_max does not raise every component to the greater one", "statements": helper_max.get("eff")})
+                else:
+                    rep.ok("H3c-last-bin", k3c, "bin[max over every axis] = sum of all bins")
             k = "H3:cumulative_histogram" + ("<3d>" if "int, int, int" in f["full"] else "<1d>")
             if one_d and n_d and guard_ok and ret_ok:
                 rep.ok("H3-cumulative", k, "running sum over sorted keys / dominated-keys sum")
@@ -569,6 +707,24 @@ def run(rep):
                 ret = [R.key(x.get("e")) for x, _ in R.find(g["body"], lambda x: x.get("k") == "Return")]
                 ok = ret == [env["S"]]
             k = "H5:histogram::%s%s" % (short, "<3d>" if "int, int, int" in f.get("cls", "") else "<1d>")
+            if ok and short == "normalize":
+                # H5b: a histogram without mass (no bins, or only empty bins of a dense fill) is not divided by its total
+                rep.count("obligations:H5b")
+                S = env["S"]
+                guarded = False
+                for x, pth in R.find(g["body"], lambda x: x.get("k") == "If"):
+                    ck = R.key(x["cond"])
+                    rets = [r for r, _ in R.find(x.get("then"), lambda y: y.get("k") == "Return")]
+                    if ck in ("(%s == 0)" % S, "(%s == 0.0)" % S, "(0 == %s)" % S, "(!%s)" % S, "(%s <= 0)" % S, "(%s <= 0.0)" % S) and rets:
+                        guarded = True
+                    divs = [kk for kk, _, _ in effects(x.get("then")) if "/ %s" % S in kk] if x.get("then") else []
+                    if ck in ("(%s != 0)" % S, "(%s != 0.0)" % S, "(%s > 0)" % S, "(%s > 0.0)" % S, S) and divs:
+                        guarded = True
+                if guarded:
+                    rep.ok("H5b-zero-mass", "H5b:histogram::normalize:zero total", "the division is skipped when the total is 0")
+                else:
+                    rep.violation("H5b-zero-mass", "H5b:histogram::normalize:zero total", where, {"problem": "every bin is divided by the total without a test for 0",
+                                  "example": "dense fill (sparsefill = false, limits 0..2) of an empty or fully masked view, then normalize(): the bins 0,1,2 become NaN"})
             if ok:
                 rep.ok("H5-normalize", k, keys)
             else:
@@ -584,4 +740,7 @@ def run(rep):
     rep.floor("obligations:H8", 5)
     rep.floor("obligations:H9", 3)
     rep.floor("obligations:H6", 6)
+    rep.floor("obligations:H11", 2)
+    rep.floor("obligations:H3c", 1)
+    rep.floor("obligations:H5b", 2)
     rep.floor("obligations:H7", 6)
